@@ -56,7 +56,7 @@ def install_summaries():
 
 def build(src, n=2, fsm_states=FSM, sync=SYNC_CHOICES, failure=('CONTINUE', 'RESYNC', 'SHUTDOWN'),
           fence=(False, True), conciliation=('USER',), jobs=True, conflict=True, peer_views='full',
-          invariant=True, master_choices=None, summaries=True, blank_peer=None):
+          invariant=True, master_choices=None, summaries=True, blank_peer=None, pre_hook=None):
     from supvisors.ttypes import (SupvisorsInstanceStates as S, SupvisorsStates as F, StartingStrategies)
     from supvisors.commander import ProcessStartCommand, ProcessStopCommand, ApplicationStartJobs, ApplicationStopJobs
     if summaries:
@@ -101,6 +101,8 @@ def build(src, n=2, fsm_states=FSM, sync=SYNC_CHOICES, failure=('CONTINUE', 'RES
     core.add_process(ids[0], 'capp', 'other', ProcessStates.STOPPED)
     app = core.context.applications['capp']
     adapter.set_rules(app.rules, managed=True)
+    if pre_hook:
+        pre_hook(core, ids)
     core.finalize_rules()
     if has_conflict:
         core.process_event(ids[0], 'capp', 'dup', ProcessStates.RUNNING)
